@@ -161,3 +161,39 @@ Proof.
   - intro j. rewrite Sg, Ug. reflexivity.
   - rewrite Sb, Ub. nia.
 Qed.
+
+(* the guard of the Node functions rejects exactly the calls that the Tensor composite and
+   FWD_SHAPE(Split / BatchSplit) reject *)
+Theorem split_guard_agree x dim n : wf x -> u32 dim -> u32 n ->
+  (node_split_guard x dim n = true <-> split_tensor x dim n = None) /\
+  (node_split_guard x dim n = true <-> split x dim n = None).
+Proof.
+  intros Hx Hd Hn.
+  assert (G : node_split_guard x dim n = true <-> split x dim n = None).
+  { pose proof (split_spec x dim n Hx Hd Hn) as S. unfold split_admissible in S.
+    unfold node_split_guard.
+    destruct (N.eqb_spec n 0) as [E0|E0]; cbn [orb].
+    - destruct (split x dim n); [lia|tauto].
+    - destruct (N.eqb_spec (get x dim mod n) 0) as [E1|E1]; cbn [negb].
+      + destruct (split x dim n); [split; discriminate|]. exfalso. apply S. lia.
+      + destruct (split x dim n); [lia|tauto]. }
+  split; [|exact G]. rewrite G, (split_agree x dim n Hx Hd Hn).
+  destruct (split x dim n); cbn [option_map]; split; intro; (reflexivity || discriminate).
+Qed.
+
+Theorem batch_split_guard_agree x n : wf x -> u32 n ->
+  (node_batch_split_guard x n = true <-> batch_split_tensor x n = None) /\
+  (node_batch_split_guard x n = true <-> batch_split x n = None).
+Proof.
+  intros Hx Hn.
+  assert (G : node_batch_split_guard x n = true <-> batch_split x n = None).
+  { pose proof (batch_split_spec x n Hx Hn) as S. unfold batch_split_admissible in S.
+    unfold node_batch_split_guard.
+    destruct (N.eqb_spec n 0) as [E0|E0]; cbn [orb].
+    - destruct (batch_split x n); [lia|tauto].
+    - destruct (N.eqb_spec (batch x mod n) 0) as [E1|E1]; cbn [negb].
+      + destruct (batch_split x n); [split; discriminate|]. exfalso. apply S. lia.
+      + destruct (batch_split x n); [lia|tauto]. }
+  split; [|exact G]. rewrite G, (batch_split_agree x n Hx Hn).
+  destruct (batch_split x n); cbn [option_map]; split; intro; (reflexivity || discriminate).
+Qed.
